@@ -1,9 +1,9 @@
 ---------------------------- MODULE MC_TreeValue ----------------------------
 EXTENDS TreeValue, Json, IOUtils
-B8 == << Bit(0), Bit(1), Bit(0), Bit(0), Bit(0), Bit(0), Bit(0), Bit(1) >>     \* 0x41 'A'
+B8 == << BitLeaf(0), BitLeaf(1), BitLeaf(0), BitLeaf(0), BitLeaf(0), BitLeaf(0), BitLeaf(0), BitLeaf(1) >>     \* 0x41 'A'
 \* "a", "é", "€", b"\x80", b"A", "", "7", eight bits, one bit 1, one bit 0
-mcAlphabet == { <<S(<<97>>)>>, <<S(<<233>>)>>, <<S(<<8364>>)>>, <<B(<<128>>)>>, <<B(<<65>>)>>, <<S(<<>>)>>,
-                <<S(<<55>>)>>, B8, <<Bit(1)>>, <<Bit(0)>> }
+mcAlphabet == { <<TxtLeaf(<<97>>)>>, <<TxtLeaf(<<233>>)>>, <<TxtLeaf(<<8364>>)>>, <<BytLeaf(<<128>>)>>, <<BytLeaf(<<65>>)>>, <<TxtLeaf(<<>>)>>,
+                <<TxtLeaf(<<55>>)>>, B8, <<BitLeaf(1)>>, <<BitLeaf(0)>> }
 mcMaxUnits == atoi(IOEnv.MAXUNITS)
 
 \* the case table for the spec -> code replay: every (leaf sequence, shape) with what the reference demands
